@@ -556,6 +556,14 @@ class Hist:
                     self.write_ops()
                     self.rollback()
                     self.read_ops(2)
+                sets = [op for op in self.wlog[nxt] if op[0] == "set" and self.working.get(op[1]) == op[2]]
+                if sets and r.random() < 0.5:
+                    # the next version rewrites a pair of the replayed version with the identical value:
+                    # a new leaf all the same (its version is part of the hash, it is listed in the change set)
+                    op = r.choice(sets)
+                    self.emit("set %s %s" % (enc(op[1]), enc(op[2])))
+                    self.curlog.append(("set", op[1], op[2]))
+                    self.dirty = True
                 return
         elif nxt in self.versions and r.random() < 0.5:
             self.emit("set %s %s" % (enc(b"zz-differs"), enc(b"1")))
